@@ -142,6 +142,25 @@ def touchedKeys (before after : Json) : List String :=
 
 def setField (j : Json) (k : String) (v : Json) : Json := j.setObjVal! k v
 
+/-- rows (key, action, age) of a grace dump -/
+def dumpRows (d : Json) : List (String × String × Int) :=
+  match d with
+  | .arr rows => rows.toList.filterMap fun row => match row with
+    | .arr cols => (match cols[0]?, cols[1]?, cols[2]? with
+      | some (Json.str k), some (Json.str a), some v => some (k, a, (v.getInt?.toOption).getD 0)
+      | _, _, _ => none)
+    | _ => none
+  | _ => []
+
+def ownActions : String → List String
+  | "patchStableService" => ["patchService"]
+  | "restoreStableService" => ["restoreService"]
+  | "restoreGateway" => ["restoreGateway"]
+  | "removeCanaryService" => ["removeCanaryService"]
+  | "routeAllToNew" => ["updateRoute"]
+  | "finalisingTrafficRouting" => ["restoreService", "restoreGateway", "removeCanaryService"]
+  | _ => []
+
 def allTrue (l : List Bool) : Bool := l.all id
 
 /-! ## op grace / exp -/
@@ -172,8 +191,14 @@ def handleGrace (inp impl : Json) : R OpResult := do
     return jeq (arrJ (implObsOf r jobs)) (arrJ sobs) &&
       jeq (dumpRestrict (fun k => (keysOf r).contains k) jfinal) (← jget s "final")
   let nOps := evs.filter (fun e => match e with | .op _ _ => true | _ => false) |>.length
+  let ops := evs.filterMap fun e => match e with | .op _ o => some o | _ => none
+  let errRep := (ops.zip jobs).all fun (o, ob) => match o with
+    | .run _ _ _ _ er =>
+      let oj := (ob.getObjVal? "o").toOption.getD .null
+      errorReported er (fBoolD oj "retry" false) (fBoolD oj "err" false)
+    | _ => true
   return { model := mkObj [("joint", jointJ), ("solo", arrJ soloJ)],
-           holds := if sep then [("C19.same_as_solo", allTrue same)] else [],
+           holds := (if sep then [("C19.same_as_solo", allTrue same)] else []) ++ [("C19.closure_error_reported", errRep)],
            tags := ["op:grace", s!"n:{owners}", if sep then "mode:distinct" else "mode:overlap"] ++
              (if nOps < 2 then ["trivial"] else []) ++
              (if evs.any (fun e => match e with | .tick _ => true | _ => false) then ["ticks"] else []) ++
@@ -381,9 +406,22 @@ def handleManager (inp impl : Json) : R OpResult := do
     | none => false
   let calls := jsteps.filterMap fun s => (s.getObjVal? "call").toOption.bind (·.getStr?.toOption)
   let anyB (k : String) := jsteps.any fun s => fBoolD s k false
+  let aframe := jsteps.all fun s =>
+    actionFrame (ownActions (fStrD s "call" ""))
+      (dumpRows ((s.getObjVal? "pre").toOption.getD .null)) (dumpRows ((s.getObjVal? "store").toOption.getD .null))
+  -- a write that failed (injected fault) must surface as an error of the call, which then never reports completion
+  let errRep := jsteps.all fun s =>
+    let fault := match s.getObjVal? "writes" with
+      | .ok (.arr ws) => ws.toList.any fun w => match w with
+        | .arr cols => (match cols[3]? with | some (Json.bool ok) => !ok | _ => false)
+        | _ => false
+      | _ => false
+    let call := fStrD s "call" ""
+    if call == "finalisingTrafficRouting" || call == "doTrafficRouting" then !fault || (fBoolD s "err" false && !fBoolD s "b" true)
+    else errorReported fault (fBoolD s "b" false) (fBoolD s "err" false)
   return { model := mkObj [("joint", jointJ), ("solo", arrJ soloJ)],
            holds := (if distinct then [("C19.same_as_solo", allTrue same), ("C19.keys_distinct", keysDistinct used)] else []) ++
-                    [("C19.writes_within_footprint", within)],
+                    [("C19.writes_within_footprint", within), ("C19.action_frame", aframe), ("C19.closure_error_reported", errRep)],
            tags := ["op:manager", s!"n:{ros.length}",
                     if !distinct then "mode:sharedObjects" else if clash then "mode:nameClash" else "mode:distinct"] ++
              (if clash ∧ distinct then ["guard:canaryNameClash"] else []) ++
@@ -445,6 +483,27 @@ def runBr (rels : List Rel) (timeout : Nat) (evs : List RawEv) (only : Option Na
           out := out ++ [setField (setField recd "pre" pre) "store" (expDump now st)]
   return (out, now, st)
 
+def createOutOf : String → CreateOut
+  | "alreadyExists" => .alreadyExists | "blocked" => .blocked | "stableErr" => .stableErr
+  | "createErr" => .createErr | _ => .created
+
+/-- `createAllowed` on one implementation record: the key's row of the store before the call -/
+def createAllowedJ (timeout : Nat) (ck : String) (s : Json) : Bool :=
+  let row : Option Json := match s.getObjVal? "pre" with
+    | .ok (.arr rows) => rows.toList.find? fun r => match r.getObjVal? "key" with | .ok (Json.str k) => k == ck | _ => false
+    | _ => none
+  let pending := match row with
+    | some r => (match r.getObjVal? "objs" with
+      | .ok (.arr os) => os.toList.any fun o => match o with
+        | .arr cols => (match cols[1]? with | some (Json.arr names) => names.size > 0 | _ => false)
+        | _ => false
+      | _ => false)
+    | none => false
+  let unsat : Option Nat := match row with
+    | some r => (match r.getObjVal? "unsat" with | .ok v => v.getNat?.toOption | _ => none)
+    | none => none
+  createAllowed pending unsat timeout (createOutOf (fStrD s "res" ""))
+
 def handleBr (inp impl : Json) : R OpResult := do
   let rels ← (← fArrD inp "releases").mapM fun j => do
     return ({ r := ← fNat j "r", ns := ← fStr j "ns", name := ← fStr j "name", hasWorkload := ← fBool j "hasWorkload" } : Rel)
@@ -466,7 +525,13 @@ def handleBr (inp impl : Json) : R OpResult := do
   let used := usedKeys (rels.map (·.r)) jsteps
   let results := jsteps.filterMap fun s => (s.getObjVal? "res").toOption.bind (·.getStr?.toOption)
   return { model := mkObj [("joint", jointJ), ("solo", arrJ soloJ)],
-           holds := if distinct then [("C19.same_as_solo", allTrue same), ("C19.keys_distinct", keysDistinct used)] else [],
+           holds := (if distinct then [("C19.same_as_solo", allTrue same), ("C19.keys_distinct", keysDistinct used)] else []) ++
+             [("C19.create_respects_expectation", jsteps.all fun s =>
+                if fStrD s "call" "" == "create" then
+                  (match rels.find? (fun x => some x.r == ((s.getObjVal? "r").toOption.bind (·.getNat?.toOption))) with
+                   | some rel => createAllowedJ timeout (nsName rel.ns rel.name) s
+                   | none => false)
+                else true)],
            tags := ["op:brexp", s!"n:{rels.length}", if distinct then "mode:distinct" else "mode:sharedObjects"] ++
              (if results.length < 2 then ["trivial"] else []) ++ (results.eraseDups.map (fun c => s!"create:{c}")) ++
              (if rels.any (fun a => rels.any fun b => a.r != b.r && a.name == b.name && a.ns != b.ns) then ["sameNameOtherNs"] else []) }
